@@ -61,6 +61,11 @@ type Quirks struct {
 	// enumerable, configurable, writable, get, set, value (8.10.5 has value third),
 	// and with a get/set field present it throws before [[Get]] of "value".
 	DescriptorValueLast bool
+	// ReturnRawThis: reverse and sort return the this value as passed instead of ToObject(this).
+	ReturnRawThis bool
+	// LengthConvertedOnce: the array [[DefineOwnProperty]] converts the new length once
+	// (15.4.5.1 steps 3.c and 3.d are ToUint32(Desc.[[Value]]) and ToNumber(Desc.[[Value]])).
+	LengthConvertedOnce bool
 	// ReverseDeleteFirst: reverse, "lower is a hole, upper exists": the upper
 	// element is deleted before the lower one is written (15.4.4.8 step 6.i is Put, then Delete).
 	ReverseDeleteFirst bool
@@ -549,10 +554,19 @@ func (r *Realm) arrayDefineOwnProperty(a *Obj, p string, desc Desc, throw bool) 
 		if !desc.HasValue { // a
 			return r.ordinaryDefineOwnProperty(a, "length", desc, throw)
 		}
-		newLenDesc := desc                             // b
-		newLen := r.ToUint32(desc.Value)               // c
-		if float64(newLen) != r.ToNumber(desc.Value) { // d
-			throwRange()
+		newLenDesc := desc // b
+		var newLen uint32
+		if r.Quirk.LengthConvertedOnce {
+			n := r.ToNumber(desc.Value)
+			newLen = NumberToUint32(n)
+			if float64(newLen) != n {
+				throwRange()
+			}
+		} else {
+			newLen = r.ToUint32(desc.Value)                // c
+			if float64(newLen) != r.ToNumber(desc.Value) { // d
+				throwRange()
+			}
 		}
 		newLenDesc.Value = Num(float64(newLen))                                             // e
 		if newLen >= oldLen && !(r.Quirk.ArrayLengthSameValueRejects && newLen == oldLen) { // f
